@@ -4,8 +4,8 @@ from __future__ import annotations
 import simplify
 
 ID = "C18"
-THEOREMS = ["simplify_total", "simplify_no_internal_error", "simplify_output_wf", "simp_total", "wfq_rename", "simp_sub_nonconst", "simp_sub_negative", "simp_sub_tuple_const", "simp_sub_dict_absent"]
-LEANCHECKER_MODULES = ["Fadl.Props.C18Total", "Fadl.Props.C18"]  # re-checked by leanchecker in the thorough tier
+THEOREMS = ["simp_fuelMono", "simp_fuel_irrelevant", "simplify_fuel_irrelevant", "simplify_total", "simplify_no_internal_error", "simplify_output_wf", "simp_total", "wfq_rename", "simp_sub_nonconst", "simp_sub_negative", "simp_sub_tuple_const", "simp_sub_dict_absent"]
+LEANCHECKER_MODULES = ["Fadl.Props.C18Fuel", "Fadl.Props.C18Total", "Fadl.Props.C18"]  # re-checked by leanchecker in the thorough tier
 RULE = (
     "queries of C02's grammar into which literal projections are inserted at random expression positions: a tuple / list / "
     "dict literal wrapped around a sub-expression and indexed with a valid constant, an out-of-range constant, a variable, a "
